@@ -86,9 +86,21 @@ func BankSend(label string, from, to sdk.AccAddress, coins ...sdk.Coin) *explore
 
 // mustRun delivers seed messages and panics if one fails: a seed that stops
 // working must never silently shrink the explored space.
+// TolerateSeedFailures makes seed construction skip (and record in SeedFailures) a step that fails
+// instead of panicking. Only Engine C sets it, in its own process: there the construction of the seed is
+// itself compared between environments (wall clock), so a step that fails is an observation.
+var (
+	TolerateSeedFailures bool
+	SeedFailures         []string
+)
+
 func mustRun(c *chain.Chain, ctx sdk.Context, acts ...*explore.Action) sdk.Context {
 	for _, a := range acts {
 		post, w, res, _ := explore.Apply(c, ctx, a)
+		if !res.OK && TolerateSeedFailures {
+			SeedFailures = append(SeedFailures, fmt.Sprintf("%s: %s", a.Label, res.Err))
+			continue
+		}
 		if !res.OK {
 			panic(fmt.Sprintf("seed step %q failed: %s", a.Label, res.Err))
 		}
@@ -189,6 +201,17 @@ func PreparedActions() []*explore.Action {
 		}}),
 	)
 	return acts
+}
+
+// PreparedNoOrdersSeed is the prepared state without the two sell messages: a base whose construction
+// does not itself depend on the marketplace parameters (C18 exercises those through its own operations).
+func PreparedNoOrdersSeed(name string) explore.Seed {
+	return explore.Seed{Name: name, Build: func(c *chain.Chain) sdk.Context {
+		ctx := c.BaseContext(chain.T0, 1)
+		c.InitGenesis(ctx, chain.Genesis{Balances: StdFunds()})
+		acts := PreparedActions()
+		return mustRun(c, ctx, acts[:len(acts)-2]...)
+	}}
 }
 
 // PreparedSeed builds the prepared state.
